@@ -298,6 +298,38 @@ def _ints(s):
     return [int(x) for x in re.findall(r"-?\d+", s)]
 
 
+def _top_level(txt):
+    """the text with everything inside braces blanked out (strings, character literals and comments are skipped over)"""
+    out, depth, i, n = [], 0, 0, len(txt)
+    while i < n:
+        ch = txt[i]
+        if txt.startswith("//", i):
+            j = txt.find("\n", i)
+            j = n if j < 0 else j
+            out.append(txt[i:j] if depth == 0 else "")
+            i = j
+            continue
+        if txt.startswith("/*", i):
+            j = txt.find("*/", i + 2)
+            j = n if j < 0 else j + 2
+            i = j
+            continue
+        if ch in "\"'`":
+            j = i + 1
+            while j < n and txt[j] != ch:
+                j += 2 if (txt[j] == "\\" and ch != "`") else 1
+            i = min(n, j + 1)
+            continue
+        if ch == "{":
+            depth += 1
+        elif ch == "}":
+            depth = max(0, depth - 1)
+        elif depth == 0 or ch == "\n":
+            out.append(ch)
+        i += 1
+    return "".join(out)
+
+
 def scrape(path, target):
     """reads constants, tables, per-rule data and the translate switch out of a generated file; white space, optional
     semicolons and type annotations may vary (a re-indented or re-commented template reads the same)"""
@@ -310,7 +342,8 @@ def scrape(path, target):
     d["acc"] = int(m.group(1)) if m else None
     m = re.search(cdecl % "NTERMINALS", txt)
     d["nterminals"] = int(m.group(1)) if m else None
-    d["consts"] = {a: int(b) for a, b in re.findall(r"^[ \t]*const\s+(\w+)(?:[ \t]+\w+|[ \t]*:[ \t]*\w+)?[ \t]*=[ \t]*(-?\d+)[ \t]*;?[ \t]*$", txt, re.M)
+    # token constants are TOP-LEVEL declarations: a `const` inside a function body (a local of the driver) is not one
+    d["consts"] = {a: int(b) for a, b in re.findall(r"^[ \t]*const\s+(\w+)(?:[ \t]+\w+|[ \t]*:[ \t]*\w+)?[ \t]*=[ \t]*(-?\d+)[ \t]*;?[ \t]*$", _top_level(txt), re.M)
                    if a not in ("ERROR_ACTION", "ACCEPT_ACTION", "NTERMINALS")}
     if re.search(r"var\s+StatePackAction\b", txt):
         d["packed"] = True
@@ -342,14 +375,14 @@ def scrape(path, target):
     d["rules"] = rules
     tr = {}
     if target == "go":
-        m = re.search(r"func\s+translate\(\s*c\s+int\s*\)\s*int\s*\{(.*?)\n\s*return\s+conv", txt, re.S)
+        m = re.search(r"func\s+translate\(\s*\w+\s+int\s*\)\s*int\s*\{(.*?)\n\s*return\s+\w+", txt, re.S)
         body = m.group(1) if m else ""
-        for a, b in re.findall(r"case\s+(-?\d+)\s*:\s*conv\s*=\s*(\d+)", body):
+        for a, b in re.findall(r"case\s+(-?\d+)\s*:\s*\w+\s*=\s*(\d+)", body):
             tr.setdefault(int(a), int(b))
     else:
-        m = re.search(r"function\s+translate\(\s*c\s*:\s*number\s*\)\s*:\s*number\s*\{(.*?)\n\s*return\s+conv", txt, re.S)
+        m = re.search(r"function\s+translate\(\s*\w+\s*:\s*number\s*\)\s*:\s*number\s*\{(.*?)\n\s*return\s+\w+", txt, re.S)
         body = m.group(1) if m else ""
-        for a, b in re.findall(r"case\s+(-?\d+)\s*:\s*conv\s*=\s*(\d+)\s*;?", body):
+        for a, b in re.findall(r"case\s+(-?\d+)\s*:\s*\w+\s*=\s*(\d+)\s*;?", body):
             tr.setdefault(int(a), int(b))
     d["translate"] = tr
     return d
